@@ -298,7 +298,60 @@ pub fn r2_poll_all_publish(s: &mut Src) {
         Err(e) => { vassert!(pid == 0, "P|r2|y"); vcover!(true, "rej"); done(e); }
     }
 }
+pub fn n4_pubprops_bad_after_alloc(s: &mut Src) {
+    let t = s.u8();
+    let v = vec![t];
+    let st = unsafe { String::from_utf8_unchecked(v) };
+    let body = [5u8, 0x11, 0, 0, 0, 1];
+    let mut rd: &[u8] = &body;
+    let r = dec!(mp::v5::PublishProperties::decode_async(&mut rd, mp::v5::PacketType::Publish));
+    match r {
+        Ok(p) => { vassert!(false, "P|n4|x"); done(p); }
+        Err(e) => { vcover!(true, "rej"); done(e); }
+    }
+    done(st);
+}
+pub fn n5_publish_bad_prop(s: &mut Src) {
+    let t = s.u8();
+    let body = [0u8, 1, t, 5, 0x11, 0, 0, 0, 1, 7];
+    let mut rd: &[u8] = &body;
+    set_classes(usize::MAX, usize::MAX, usize::MAX);
+    let h = mp::v5::Header::new(mp::v5::PacketType::Publish, false, mp::QoS::Level0, false, 10);
+    let r = dec!(mp::v5::Publish::decode_async(&mut rd, h));
+    match r {
+        Ok(p) => { vassert!(false, "P|n5|x"); done(p); }
+        Err(e) => { vcover!(true, "rej"); done(e); }
+    }
+}
 scenarios! {
+    #[kani::unwind(8)]
+    #[kani::stub(<mqtt_proto_sync::Error as std::convert::From<std::io::Error>>::from, crate::model::from_io_eof_stub)]
+    probe_n4_pubprops_bad_after_alloc [1] => n4_pubprops_bad_after_alloc;
+    #[kani::unwind(8)]
+    #[kani::stub(<mqtt_proto_sync::Error as std::convert::From<std::io::Error>>::from, crate::model::from_io_eof_stub)]
+    #[kani::stub(simdutf8::basic::from_utf8, crate::model::from_utf8_class_stub)]
+    #[kani::stub(mqtt_proto_sync::TopicName::is_invalid, crate::model::topic_name_class_stub)]
+    probe_n5_publish_bad_prop [1] => n5_publish_bad_prop;
+    #[kani::unwind(8)]
+    #[kani::stub(<mqtt_proto_sync::Error as std::convert::From<std::io::Error>>::from, crate::model::from_io_eof_stub)]
+    probe_n5b_publish_bad_prop_nostub [1] => n5_publish_bad_prop;
+    #[kani::unwind(8)]
+    #[kani::stub(<mqtt_proto_sync::Error as std::convert::From<std::io::Error>>::from, crate::model::from_io_eof_stub)]
+    #[kani::stub(simdutf8::basic::from_utf8, crate::model::from_utf8_class_stub)]
+    probe_n5c_only_utf8_stub [1] => n5_publish_bad_prop;
+    #[kani::unwind(8)]
+    #[kani::stub(<mqtt_proto_sync::Error as std::convert::From<std::io::Error>>::from, crate::model::from_io_eof_stub)]
+    #[kani::stub(mqtt_proto_sync::TopicName::is_invalid, crate::model::topic_name_class_stub)]
+    probe_n5d_only_name_stub [1] => n5_publish_bad_prop;
+    #[kani::unwind(8)]
+    #[kani::stub(<mqtt_proto_sync::Error as std::convert::From<std::io::Error>>::from, crate::model::from_io_eof_stub)]
+    #[kani::stub(simdutf8::basic::from_utf8, crate::model::from_utf8_model_stub)]
+    probe_n5e_utf8_model_stub [1] => n5_publish_bad_prop;
+    #[kani::unwind(8)]
+    #[kani::stub(<mqtt_proto_sync::Error as std::convert::From<std::io::Error>>::from, crate::model::from_io_eof_stub)]
+    #[kani::stub(simdutf8::basic::from_utf8, crate::model::from_utf8_assume_valid)]
+    probe_n5f_assume_valid_nocounter [1] => n5_publish_bad_prop;
+
     #[kani::unwind(8)]
     #[kani::stub(<mqtt_proto_sync::Error as std::convert::From<std::io::Error>>::from, crate::model::from_io_eof_stub)]
     probe_r1_poll_all_connack [2] => r1_poll_all_connack;
